@@ -6,6 +6,7 @@ import (
 	"go/types"
 	"os"
 	"path/filepath"
+	"regexp"
 	"sort"
 	"strings"
 	"time"
@@ -114,17 +115,36 @@ func buildOverlay(module, scratch string, extra map[string]string) (map[string]s
 	if err := add(filepath.Join(verifDir(), "harness", module)); err != nil {
 		return nil, nil, err
 	}
-	// zzverif package
-	vb, err := os.ReadFile(filepath.Join(verifDir(), "harness", "zzverif", "verif.go"))
-	if err != nil {
-		return nil, nil, err
+	// zzverif package (and zzsync, the instrumented stand-in for package sync)
+	for _, rel := range []string{"zzverif/verif.go", "zzverif/zzsync/zzsync.go"} {
+		vb, err := os.ReadFile(filepath.Join(verifDir(), "harness", rel))
+		if err != nil {
+			return nil, nil, err
+		}
+		vreal := filepath.Join(scratch, "ov", module, rel)
+		os.MkdirAll(filepath.Dir(vreal), 0o755)
+		if err := os.WriteFile(vreal, []byte(subst(string(vb))), 0o644); err != nil {
+			return nil, nil, err
+		}
+		ov[filepath.Join(mdir, rel)] = vreal
 	}
-	vreal := filepath.Join(scratch, "ov", module, "zzverif", "verif.go")
-	os.MkdirAll(filepath.Dir(vreal), 0o755)
-	if err := os.WriteFile(vreal, vb, 0o644); err != nil {
-		return nil, nil, err
+	// instrumented copies of the current source: import "sync" -> zzsync
+	for _, rel := range instrumentFiles {
+		src, err := os.ReadFile(filepath.Join(mdir, rel))
+		if err != nil {
+			return nil, nil, fmt.Errorf("instrument %s: %v", rel, err)
+		}
+		out := syncImportRe.ReplaceAllString(string(src), "${1}${2}sync \""+mpath+"/zzverif/zzsync\"")
+		if out == string(src) {
+			return nil, nil, fmt.Errorf("instrument %s: no import of \"sync\" found to rewrite", rel)
+		}
+		real := filepath.Join(scratch, "ov", module, "instr", rel)
+		os.MkdirAll(filepath.Dir(real), 0o755)
+		if err := os.WriteFile(real, []byte(out), 0o644); err != nil {
+			return nil, nil, err
+		}
+		ov[filepath.Join(mdir, rel)] = real
 	}
-	ov[filepath.Join(mdir, "zzverif", "verif.go")] = vreal
 	for rel, real := range extra {
 		ov[filepath.Join(mdir, rel)] = real
 	}
@@ -135,6 +155,12 @@ func buildOverlay(module, scratch string, extra map[string]string) (map[string]s
 	sort.Strings(dirs)
 	return ov, dirs, nil
 }
+
+// instrumentFiles lists module-relative source files whose import of "sync"
+// is redirected to zzsync for this process (set per check / --instrument).
+var instrumentFiles []string
+
+var syncImportRe = regexp.MustCompile(`(?m)^(\s*)(import\s+)?(?:sync\s+)?"sync"[ \t]*$`)
 
 var initWhitelist = []string{
 	"strconv", "strings", "net/url", "sort", "io", "math", "math/bits", "unicode/utf8", "unicode/utf16", "unicode", "bytes",
